@@ -121,6 +121,8 @@ def float_sum(eng, st, o):
     anyc = any_of(eng, n, lambda q: as_float(g(q)).cplx, "anycplx")
     arr = named_array(eng, z3.Lambda([k], as_float(g(k)).val), "R")
     sum_axioms(eng, arr, n)
+    if hasattr(eng, "_sum_terms"):
+        eng._sum_terms.append((arr, n))
     return VFloat(SUMR(arr, z3.If(n > 0, n, 0)), z3.Or(anynan, z3.And(anyp, anyn)), z3.Or(anyp, anyn), anyp, anyc)
 
 
